@@ -27,8 +27,9 @@ DRIVER = "drv_C19"
 REQUIRED_THEOREMS = [
     "Acn.C19.place_unique", "Acn.C19.no_wait_while_free", "Acn.C19.fifo_admission",
     "Acn.C19.waiting_iff_station_none", "Acn.C19.no_error", "Acn.C19.never_charged_counts",
-    "Acn.C19.all_gone_at_end", "Acn.C19.stale_unplug_noop", "Acn.C19.deterministic_given_choices_partial",
-    "Acn.C19.wellFormed_protocol",
+    "Acn.C19.all_gone_at_end", "Acn.C19.stale_unplug_noop", "Acn.C19.deterministic_given_choices",
+    "Acn.C19.wellFormed_protocol", "Acn.C19.starvation_free", "Acn.C19.all_gone_after_horizon",
+    "Acn.C19.eventCore_history_wellFormed",
 ]
 BUDGET = {"quick": 2500, "thorough": 15000, "search": 12000}
 TRUSTED = ["heapq: get_current_events returns the due events in (timestamp, precedence) order; the order "
@@ -42,7 +43,9 @@ ASSUMPTIONS = ["histories are well formed: distinct session ids, arrival < depar
 RULE = ("per case 1-4 stations, 1-12 sessions over a short horizon (heavy overlap, many equal arrival/departure "
         "times), tiny/medium/huge energy requests, early departure on/off, a scheduler giving 32 A / alternating / "
         "0 A, initial station ids valid/foreign/None, a random.seed or a scripted choice sequence; thorough adds the "
-        "exhaustive scope <=2 stations x <=4 sessions x all choice scripts over horizon 4. "
+        "exhaustive scope <=2 stations x <=4 sessions x all choice scripts over horizon 4; incoming station ids are "
+        "registered EVSE ids in ~60% of the cases (as acndata_events produces); plus a malformed stream of raw "
+        "plugin/unplug/post calls in any order (state and error class compared after every call). "
         "non-trivial = some session had to wait (more simultaneous sessions than stations); distinct by case hash")
 
 START = datetime(2020, 1, 1)
@@ -65,10 +68,18 @@ def _gen_case(rng, tier):
     r = rng.random()
     H = rng.choice([3, 4, 6, 9]) if r < 0.8 else rng.choice([12, 20])
     sessions = []
+    # incoming EV.station_id: what acndata_events produces is a REGISTERED EVSE id (the space the
+    # driver used in the data set); also foreign ids, None, ids that look like session ids
+    st0_mode = rng.choice(["registered", "registered", "mixed", "mixed", "same"])
     for k in range(n):
         a = rng.randint(0, H - 1) if rng.random() < 0.8 else rng.choice([0, 0, 1, H - 1])
         d = rng.randint(a + 1, H) if rng.random() < 0.7 else min(H, a + rng.choice([1, 1, 2]))
-        st0 = rng.choice([stations[0], rng.choice(stations), "zz", None, f"s{k}"])
+        if st0_mode == "registered":
+            st0 = rng.choice(stations)
+        elif st0_mode == "same":
+            st0 = stations[0]
+        else:
+            st0 = rng.choice([stations[0], rng.choice(stations), "zz", None, f"s{k}"])
         sessions.append({"id": f"s{k}", "arrival": a, "departure": d, "kwh": rng.choice(KWH), "st0": st0})
     rng.shuffle(sessions)
     early = rng.random() < 0.7
@@ -110,8 +121,26 @@ def corpus():
     ]
 
 
+def _gen_ops(rng):
+    """malformed stream: raw plugin / unplug / post_charging_update calls in ANY order (double plug-in,
+    unplug before plug-in, double unplug, unplug of an EV with a foreign / None / registered station id)"""
+    ns = rng.choice([1, 2, 2, 3])
+    stations = ["A", "B", "C"][:ns]
+    n = rng.randint(1, 5)
+    evs = [{"id": f"e{k}", "st0": rng.choice([None, "zz", "A", rng.choice(stations)]), "full": rng.random() < 0.5}
+           for k in range(n)]
+    ops = []
+    for _ in range(rng.randint(1, 14)):
+        r = rng.random()
+        x = rng.choice(evs)["id"]
+        ops.append(["plugin", x] if r < 0.45 else ["unplug", x] if r < 0.85 else ["post"])
+    return {"ops": ops, "stations": stations, "early": rng.random() < 0.7, "evs": evs,
+            "script": [rng.randint(0, 2) for _ in range(len(ops))]}
+
+
 def generate(rng, n, tier):
     out = [_gen_case(rng, tier) for _ in range(n)]
+    out.extend(_gen_ops(rng) for _ in range(max(50, n // 5)))
     if tier == "thorough":
         out.extend(_exhaustive())
     return out
@@ -252,7 +281,42 @@ def _run_once(case, patch=True):
     }
 
 
+def _run_ops(case):
+    log = {"choices": [], "choice_sizes": []}
+    evs = {e["id"]: EV(0, 10, 0.0 if e["full"] else 60.0, e["st0"], e["id"], Battery(100.0, 0.0, 50.0))
+           for e in case["evs"]}
+    net = StochasticNetwork(early_departure=case["early"])
+    for sid in case["stations"]:
+        net.register_evse(EVSE(sid, max_rate=32), VOLT, 0)
+
+    def snap():
+        return {
+            "occ": [[sid, (net.get_ev(sid).session_id if net.get_ev(sid) is not None else None)] for sid in net.station_ids],
+            "waiting": list(net.waiting_queue.keys()),
+            "station_of": [[k, evs[k].station_id] for k in sorted(evs)],
+            "swaps": net.swaps, "never_charged": net.never_charged, "early_unplug": net.early_unplug,
+        }
+
+    steps = []
+    with _choice_patch(case["script"], log):
+        for o in case["ops"]:
+            err = None
+            try:
+                if o[0] == "plugin":
+                    net.plugin(evs[o[1]])
+                elif o[0] == "unplug":
+                    net.unplug(evs[o[1]].station_id, o[1])
+                else:
+                    net.post_charging_update()
+            except Exception as e:  # noqa
+                err = I.err_name(e)
+            steps.append({"err": err, "snap": snap()})
+    return {"steps": steps, "choices": log["choices"], "choice_sizes": log["choice_sizes"]}
+
+
 def run_impl(case):
+    if "ops" in case:
+        return _run_ops(case)
     obs = _run_once(case, patch=True)
     if case.get("seed") is not None and case.get("script") is None:
         # reproducibility: the same seed without any patching gives the same run
@@ -272,6 +336,11 @@ def _horizon(case):
 
 
 def model_request(case, obs):
+    if "ops" in case:
+        full = [e["id"] for e in case["evs"] if e["full"]]
+        return {"mode": "ops", "stations": case["stations"], "early": case["early"],
+                "evs": [{"id": e["id"], "st0": e["st0"]} for e in case["evs"]], "choices": obs["choices"],
+                "ops": [o if o[0] != "post" else ["post", full] for o in case["ops"]]}
     fulls = [st["full"] for st in obs["trace"] if st["op"] == "post"]
     return {
         "stations": case["stations"], "early": case["early"], "periods": _horizon(case),
@@ -296,6 +365,21 @@ def _cmp_snap(a, m, where, out, draws=None):
 
 def compare(case, obs, model):
     out = []
+    if "ops" in case:
+        for i, (a, m) in enumerate(zip(obs["steps"], model["steps"])):
+            if a["err"] != m["err"]:
+                out.append(f"op {i} {case['ops'][i]}: error class impl={a['err']} model={m['err']}")
+                break
+            if a["err"] and case["ops"][i][0] == "post":
+                # the loop of post_charging_update raises half way: the implementation keeps the
+                # unplugs done so far, the model's Except discards them; the error class is what is compared
+                break
+            _cmp_snap(a["snap"], m["snap"], f"op {i} {case['ops'][i]}", out)
+            if out:
+                break
+        if len(obs["steps"]) != len(model["steps"]):
+            out.append("number of steps differs")
+        return out
     if obs["err"] != model["err"]:
         out.append(f"error impl={obs['err']} model={model['err']}")
     if not model["wf"]:
@@ -340,6 +424,10 @@ def _places(snap):
 
 def oracle(case, obs):
     fails = []
+    if "ops" in case:
+        # outside the property's domain (the protocol is violated on purpose): only the
+        # correspondence with the model (state and error class after every call) is checked
+        return fails
 
     def bad(kind, detail):
         if len(fails) < 8:
@@ -455,10 +543,16 @@ def _max_overlap(case):
 
 
 def nontrivial(case, obs):
+    if "ops" in case:
+        return any(st["err"] for st in obs["steps"])
     return any(st["snap"]["waiting"] for st in obs["trace"])
 
 
 def features(case, obs):
+    if "ops" in case:
+        return sorted({"stream:ops"} | {"ops_err:" + st["err"] for st in obs["steps"] if st["err"]}
+                      | {"ops_waiting" for st in obs["steps"] if st["snap"]["waiting"]})
+    reg = {s["id"] for s in case["sessions"] if s["st0"] in case["stations"]}
     out = [f"stations:{len(case['stations'])}", f"sessions:{min(len(case['sessions']), 12)}",
            f"early:{case['early']}", "choices:" + ("seed" if case.get("script") is None else "script"),
            "sched:" + case.get("sched", "gen")]
@@ -484,6 +578,8 @@ def features(case, obs):
         if st["op"] == "post" and st["early_calls"]:
             early_gone |= {c[1] for c in st["early_calls"]}
         if st["op"] == "unplug":
+            if st["sess"] in prev_w and st["sess"] in reg:
+                out.append("registered_st0_departs_while_waiting")
             if st["sess"] in early_gone:
                 out.append("stale_unplug")
             if st["sess"] in prev_w and prev_w.index(st["sess"]) > 0:
@@ -498,6 +594,8 @@ def features(case, obs):
 
 def shrink(case, kind):
     """drop sessions while the same oracle failure kind persists"""
+    if "ops" in case:
+        return case
     cur = case
     changed = True
     while changed and len(cur["sessions"]) > 1:
